@@ -95,6 +95,91 @@ def _quiet(fn):
     return wrapped
 
 
+def _digest(obj: Any, depth: int = 0) -> Any:
+    """a structural digest of an entity, deep enough to see every piece of state the covered mutators write"""
+    import numpy as np
+
+    if depth > 6:
+        return "..."
+    if obj is None or isinstance(obj, (bool, int, float, str)):
+        return obj
+    if isinstance(obj, np.ndarray):
+        return [float(x) for x in obj.ravel()]
+    if isinstance(obj, (list, tuple)):
+        return [_digest(x, depth + 1) for x in obj]
+    if isinstance(obj, (set, frozenset)):
+        return sorted(repr(_digest(x, depth + 1)) for x in obj)
+    if isinstance(obj, dict):
+        return {repr(k): _digest(v, depth + 1) for k, v in obj.items()}
+    if hasattr(obj, "__dict__"):
+        return [type(obj).__name__, {k: _digest(v, depth + 1) for k, v in sorted(vars(obj).items()) if not k.startswith("__")}]
+    return type(obj).__name__
+
+
+def impl_state_after_reject(name: str, r: List[Fr], s: List[str]) -> Optional[bool]:
+    """For the mutators of the catalogue: runs the call on a fresh entity; when it raises, says whether the entity is
+    still what it was before the call (None: not a mutator / the call was accepted)."""
+    import classy_blocks as cb
+    from classy_blocks.grading.chop import Chop
+    from classy_blocks.grading.grading import Grading
+    from classy_blocks.items.block import Block
+    from classy_blocks.items.edges.factory import factory
+    from classy_blocks.items.vertex import Vertex
+    from classy_blocks.util.frame import Frame
+
+    i = [int(x) if fr(x).denominator == 1 else None for x in r]
+    box = lambda: cb.Box([0, 0, 0], [1, 1, 1])
+    arc = lambda: cb.Arc([0.5, -0.2, 0.0])
+    if name == "faceAddEdge":
+        ent = cb.Face(P4)
+        fn = lambda: ent.add_edge(i[0], arc())
+    elif name == "faceProjectEdge":
+        ent = cb.Face(P4)
+        fn = lambda: ent.project_edge(i[0], "g")
+    elif name == "faceRemoveEdges":
+        ent = cb.Face(P4, [arc(), arc(), arc(), arc()])
+        fn = lambda: ent.remove_edges(list(i))
+    elif name == "opAddSideEdge":
+        ent = box()
+        fn = lambda: ent.add_side_edge(i[0], cb.Arc([-0.1, -0.1, 0.5]))
+    elif name == "opProjectCorner":
+        ent = box()
+        fn = lambda: ent.project_corner(i[0], "g")
+    elif name == "opProjectEdge":
+        ent = box()
+        fn = lambda: ent.project_edge(i[0], i[1], "g")
+    elif name == "opUnchop":
+        ent = box()
+        ent.chop(0, count=2)
+        fn = lambda: ent.unchop(i[0])
+    elif name == "opChop":
+        ent = box()
+        fn = lambda: ent.chop(i[0], count=2)
+    elif name == "opSide":
+        ent = box()
+        fn = lambda: ent.project_side(s[0], "g", True, True)
+    elif name == "blockAddEdge":
+        ent = Block(0, [Vertex(p, k) for k, p in enumerate(HEX)])
+        edge = factory.create(ent.vertices[0], ent.vertices[1], cb.Arc([0.5, 0.1, 0]))
+        fn = lambda: ent.add_edge(i[0], i[1], edge)
+    elif name == "frameAddBeam":
+        ent = Frame()
+        fn = lambda: ent.add_beam(i[0], i[1], 1)
+    elif name == "projectAddLabel":
+        nh, labels = i[0], [f"l{k}" for k in i[1:]]
+        ent = cb.Project(list(labels[:nh]))
+        fn = lambda: ent.add_label(list(labels[nh:]))
+    elif name == "lengthRatio":
+        ent = Grading(1.0)
+        fn = lambda: ent.add_chop(Chop(count=3, length_ratio=fl(r[0])))
+    else:
+        return None
+    before = _digest(ent)
+    if _outcome(fn) == "accepted":
+        return None
+    return _digest(ent) == before
+
+
 @_quiet
 def impl_call(name: str, r: List[Fr], s: List[str], light: bool = False) -> str:
     """Runs the real classy_blocks; returns "accepted" or the class name of the exception.
@@ -611,6 +696,16 @@ def py_pre(name: str, r: List[Fr], s: List[str]) -> Tuple[Optional[bool], str]:
     raise ValueError("unknown call " + name)
 
 
+# mutators that check before they act on the unchanged tree (Project.add_label, Face.remove_edges and the multi-edge
+# projection calls do not: they are outside this clause)
+ATOMIC_MUTATORS = {"faceAddEdge", "faceProjectEdge", "opAddSideEdge", "opProjectCorner", "opProjectEdge", "opUnchop", "opChop",
+                   "blockAddEdge", "frameAddBeam", "lengthRatio"}  # fmt: skip
+
+
+def name_atomic(name: str) -> bool:
+    return name in ATOMIC_MUTATORS
+
+
 # ------------------------------------------------------------------------------------------- generators
 def call(name: str, rats=(), strs=(), stream: str = "boundary") -> dict:
     return {"kind": "call", "name": name, "r": [str(fr(x)) for x in rats], "s": list(strs), "stream": stream}
@@ -771,6 +866,181 @@ def boundary_cases(nframes: int = len(FRAMES), pair_lo: int = -2, pair_hi: int =
                     out.append(call("rotationLink", leader + [_exact(fl(c)) for c in origin] + [Fr(c) for c in axis]))
     out.append(call("elbowChain", [0]))
     out.append(call("elbowChain", [1]))
+    return out
+
+
+# ------------------------------------------------------------------------------------------- boundary inputs built from the guards of the source
+def _const(e: tuple) -> Optional[Fr]:
+    """value of a closed guard expression (integers, TOL, + - * of those)"""
+    tag = e[0]
+    if tag == "int":
+        return Fr(e[1])
+    if tag == "tol":
+        return TOL  # the documented tolerance; a changed constants.TOL shows up against it
+    if tag == "neg":
+        v = _const(e[1])
+        return None if v is None else -v
+    if tag in ("add", "sub", "mul"):
+        a, b = _const(e[1]), _const(e[2])
+        if a is None or b is None:
+            return None
+        return a + b if tag == "add" else a - b if tag == "sub" else a * b
+    return None
+
+
+def _comparisons(c: tuple) -> List[tuple]:
+    if c[0] == "not":
+        return _comparisons(c[1])
+    if c[0] in ("and", "or"):
+        return _comparisons(c[1]) + _comparisons(c[2])
+    if c[0] in ("cmp", "iin", "pairin"):
+        return [c]
+    return []
+
+
+def _has(e: Any, tag: str) -> bool:
+    return isinstance(e, tuple) and (e[0] == tag or any(_has(x, tag) for x in e[1:]))
+
+
+# how a value of a name that occurs in a guard becomes a call of the catalogue
+_INT_MAKERS = {
+    ("faceAddEdge", "corner"): lambda v: [call("faceAddEdge", [v], stream="guard")],
+    ("faceProjectEdge", "corner"): lambda v: [call("faceProjectEdge", [v], stream="guard")],
+    ("faceRemoveEdges", "corner"): lambda v: [call("faceRemoveEdges", [v], stream="guard"), call("faceRemoveEdges", [0, v], stream="guard")],
+    ("opAddSideEdge", "corner_idx"): lambda v: [call("opAddSideEdge", [v], stream="guard")],
+    ("opProjectCorner", "corner"): lambda v: [call("opProjectCorner", [v], stream="guard")],
+    ("opProjectEdge", "corner_1"): lambda v: [call("opProjectEdge", [v, w], stream="guard") for w in range(-1, 10)],
+    ("opProjectEdge", "corner_2"): lambda v: [call("opProjectEdge", [w, v], stream="guard") for w in range(-1, 10)],
+    ("blockAddEdge", "corner_1"): lambda v: [call("blockAddEdge", [v, w], stream="guard") for w in range(-1, 10)],
+    ("blockAddEdge", "corner_2"): lambda v: [call("blockAddEdge", [w, v], stream="guard") for w in range(-1, 10)],
+    ("frameAddBeam", "corner_1"): lambda v: [call("frameAddBeam", [v, w], stream="guard") for w in range(-1, 10)],
+    ("frameAddBeam", "corner_2"): lambda v: [call("frameAddBeam", [w, v], stream="guard") for w in range(-1, 10)],
+    ("opUnchop", "axis"): lambda v: [call("opUnchop", [v], stream="guard"), call("opChop", [v], stream="guard")],
+    ("stackSlice", "axis"): lambda v: [call("stackSlice", [v, 0, 2, 3, 4], stream="guard")],
+    ("stackSlice", "index"): lambda v: [call("stackSlice", [a, v, 2, 3, 4], stream="guard") for a in (0, 1, 2)],
+    ("polarCartesian", "direction"): lambda v: [call("polarArgs", [v], ["z"], stream="guard")],
+    ("faceEdges", "len:edges"): lambda v: [call("faceEdges", [v], stream="guard")] if v >= 0 else [],
+    ("sideVertices", "len:vertices"): lambda v: [call("sideVertices", [v], stream="guard")] if v >= 0 else [],
+    ("fromSeries", "len:faces"): lambda v: [call("fromSeries", [v], stream="guard")] if v >= 0 else [],
+    ("projectLabels", "len:label"): lambda v: [call("projectLabels", [v], stream="guard")] if v >= 0 else [],
+    ("projectAddLabel", "len:self.label"): lambda v: [call("projectAddLabel", [1, 0, *range(1, v)], stream="guard")] if v >= 1 else [],
+    ("arrayShape", "dim:points:0"): lambda v: [call("arrayShape", [v, 3], stream="guard")] if v >= 0 else [],
+    ("arrayShape", "dim:points:1"): lambda v: [call("arrayShape", [2, v], stream="guard")] if v >= 1 else [],
+    ("polylineShape", "dim:points:0"): lambda v: [call("polylineShape", [v, 3], stream="guard")] if v >= 0 else [],
+    ("polylineShape", "dim:points:1"): lambda v: [call("polylineShape", [2, v], stream="guard")] if v >= 0 else [],
+    ("cylinderFill", "source.sketch_1.n_segments"): lambda v: [call("cylinderFill", [v], stream="guard")] if v >= 3 else [],
+}
+_RAT_MAKERS = {
+    ("lengthRatio", "chop.length_ratio"): lambda v: [call("lengthRatio", [_exact(fl(v))], stream="guard")],
+    ("chainCylinder", "length"): lambda v: [call("chain", [0, _exact(fl(v))], stream="guard")],
+    ("chainFrustum", "length"): lambda v: [call("chain", [1, _exact(fl(v))], stream="guard")],
+    ("chainRing", "length"): lambda v: [call("chain", [2, _exact(fl(v))], stream="guard")],
+    ("ringContract", "inner_radius"): lambda v: [call("ringContract", [_exact(fl(v)), Fr(1, 2)], stream="guard")],
+    ("annulus", "inner_radius"): lambda v: [call("annulus", [0, 0, 0, 2, 0, 0, 0, 0, 1, _exact(fl(v)), 8], stream="guard")],
+}
+
+
+def _deviation_cases(entry: str, thr: Fr) -> List[dict]:
+    """inputs whose signed deviation / distance sits on both sides of the threshold `thr` of a tolerance guard"""
+    out: List[dict] = []
+    if thr <= 0:
+        thr = TOL
+    devs = [thr / 2, thr * Fr(999, 1000), thr * Fr(1001, 1000), thr * 2, TOL * Fr(1001, 1000), TOL * Fr(999, 1000)]
+    for fi, frame in enumerate(FRAMES[:3]):
+        origin = [Fr(fi, 4), Fr(-fi, 8), Fr(1, 2)]
+        for d in devs:
+            for sign in (1, -1):
+                dd = sign * d
+                if entry in ("cylinder", "frustum"):
+                    a1, axis, rp = _round_geom(frame, origin, Fr(3, 2), dd, unit_normal=False)
+                    out.append(call(entry, a1 + [x + y for x, y in zip(a1, axis)] + rp, stream="guard"))
+                elif entry == "annulus":
+                    c, n, p = _round_geom(frame, origin, Fr(3, 2), dd, unit_normal=True)
+                    out.append(call("annulus", c + p + n + [Fr(1, 2), 8], stream="guard"))
+                elif entry == "faceCoplanar" and fi == 0:
+                    h = _exact(fl(dd))
+                    base = [[0, 0, 0], [1, 0, 0], [Fr(5, 4), Fr(3, 4), h], [0, 1, 0]]
+                    out.append(call("faceCoplanar", [Fr(c) for p in base for c in p], stream="guard"))
+                elif entry == "rotationLink":
+                    axis, e1, _ = frame
+                    nn = math.sqrt(sum(c * c for c in e1))
+                    leader = [_exact(fl(origin[k]) + float(dd) / nn * e1[k] + 1.25 * axis[k]) for k in range(3)]
+                    out.append(call("rotationLink", leader + [_exact(fl(c)) for c in origin] + [Fr(c) for c in axis], stream="guard"))
+    if entry in ("annulus", "ringContract"):  # radii: inner against outer / new against the source's
+        for d in devs + [Fr(0), -thr, -TOL * 2]:
+            if entry == "ringContract":
+                out.append(call("ringContract", [_exact(fl(Fr(1, 2) - d)), Fr(1, 2)], stream="guard"))
+            else:
+                out.append(call("annulus", [0, 0, 0, 2, 0, 0, 0, 0, 1, _exact(fl(2 - d)), 8], stream="guard"))
+    return out
+
+
+def guard_cases() -> List[dict]:
+    """Boundary inputs constructed from the guards *as they are in the source now*: for every comparison of a name
+    with a constant, the values one below / at / one above the constant (integers) or 1e-9 around it (rationals); for
+    every membership test, every member and the neighbours of the smallest and largest; for every comparison of a
+    deviation, a norm or a difference of radii with a tolerance expression, deviations on both sides of that
+    threshold (and of the documented TOL), with both signs."""
+    from . import c20_guards
+
+    out: List[dict] = []
+    seen = set()
+
+    def add(cases):
+        for c in cases:
+            key = (c["name"], tuple(c["r"]), tuple(c["s"]))
+            if key not in seen:
+                seen.add(key)
+                out.append(c)
+
+    def name_of(e):
+        if e[0] == "var":
+            return e[1]
+        if e[0] == "len":
+            return "len:" + e[1]
+        if e[0] == "dim":
+            return f"dim:{e[1]}:{e[2]}"
+        return None
+
+    for entry in c20_guards.ENTRIES:
+        try:
+            stmts = c20_guards.guards(entry)
+        except Exception:
+            continue  # the translator's failure is reported by the table generation
+        conds = []
+        for st in stmts:
+            if st[0] in ("raise", "ret"):
+                conds.append(st[-1])
+            elif st[0] == "each":
+                conds += [x[-1] for x in st[3] if x[0] in ("raise", "ret")]
+        for cond in conds:
+            for cmp_ in _comparisons(cond):
+                if cmp_[0] == "iin":
+                    nm_, vals = name_of(cmp_[1]), sorted(cmp_[2])
+                    mk = _INT_MAKERS.get((entry, nm_))
+                    if mk and vals:
+                        for v in sorted(set(vals) | {vals[0] - 1, vals[-1] + 1} | {v + 1 for v in vals} | {v - 1 for v in vals}):
+                            add(mk(v))
+                    continue
+                if cmp_[0] == "pairin":
+                    for (a, b) in cmp_[3]:
+                        add([call("frameAddBeam", [a, b], stream="guard"), call("frameAddBeam", [b, a], stream="guard"),
+                             call("frameAddBeam", [a, a], stream="guard"), call("frameAddBeam", [a, b + 1], stream="guard")])  # fmt: skip
+                    continue
+                _, op, a, b = cmp_
+                for x, k in ((a, b), (b, a)):
+                    kv = _const(k)
+                    if kv is None:
+                        continue
+                    nm_ = name_of(x)
+                    if nm_ is not None and (entry, nm_) in _INT_MAKERS and kv.denominator == 1:
+                        for v in (int(kv) - 1, int(kv), int(kv) + 1):
+                            add(_INT_MAKERS[(entry, nm_)](v))
+                    elif nm_ is not None and (entry, nm_) in _RAT_MAKERS:
+                        for v in (kv - Fr(1, 10**9), kv, kv + Fr(1, 10**9), kv - 1, kv + 1):
+                            add(_RAT_MAKERS[(entry, nm_)](v))
+                    elif _has(x, "dot") or _has(x, "norm") or (x[0] == "sub" and _has(k, "tol")):
+                        add(_deviation_cases(entry, kv))
     return out
 
 
@@ -1095,7 +1365,9 @@ class C20(core.Check):
     props_module = "CBV.Props.C20"
     workers = 8
     rule = (
-        "call cases: one guarded constructor/mutator/function call of the catalogue (35 call kinds); the boundary stream has "
+        "call cases: one guarded constructor/mutator/function call of the catalogue (35 call kinds); the guard stream holds the "
+        "boundary inputs constructed from the guards as the translator reads them from the source now (constants -1/0/+1, "
+        "members and neighbours of membership tests, deviations on both sides of every tolerance expression); the boundary stream has "
         "arguments on both sides of every boundary of every documented precondition (index -1/0/max/max+1 and further "
         "out, counts one below/at/one above, deviations 0, +-TOL/2, +-TOL(1-1e-3), +-TOL(1+1e-3), +-1e-3, +-0.5 in 8 "
         "rational frames, radii at/around equality and zero, lengths around zero), the random stream is seeded and "
@@ -1117,18 +1389,45 @@ class C20(core.Check):
         "rejections that come from code below the guard (NaN refused by scipy for a zero axis, zero-length chain) are "
         "modelled as 'rejected, class not predicted'",
     ]
-    partial_note = (
-        "Theorems cover the guards of the catalogue (all arguments, all tolerances > 0, all histories for the two state "
-        "machines). Not a theorem: that the model's guards are the code's guards (generated probe table checked by "
-        "`decide` + differential correspondence on boundary and random streams); norms enter in squared form, the "
-        "equivalence with the coded comparison of square roots is proved for every non-negative witness of the root."
+    _partial_base = (
+        "Theorems cover the guards of the catalogue (all arguments, all tolerances > 0, all histories for the state "
+        "machines). Model = code: the explicit guards (`if cond: raise Cls`, early returns, mutations before a guard) of "
+        "every covered entry point are regenerated from the source with `ast` on every run and proved to be the model's "
+        "table (T_C20_guards_table*); evaluating the regenerated guards on the arguments of a call is proved to give the "
+        "outcome of the model's `run`, class included, for every entry point (T_C20_guards_translated_*; "
+        "Frame.add_beam only `_partial`: pairs = EDGE_PAIRS as a table). Still checked, not proved: the rejections that "
+        "come from implicit checks below / between the guards (dict and list look-ups, numpy shape and division, NaN "
+        "refused by scipy — spelled out in each theorem as the model's own checks), the meaning of the named atoms "
+        "(`self.outer_radius`, `self.is_assembled`, `isinstance(…, Disk)`, `len(np.shape(points))`) and python's "
+        "evaluation of the translated syntax: probe table + differential correspondence (the regenerated guards are "
+        "evaluated by the driver on every call case and compared with the implementation). Norms enter in squared form; "
+        "the equivalence with the coded square roots is proved for every non-negative root witness."
     )
+
+    @property
+    def partial_note(self) -> str:
+        """+ where the `raise` / `assert` statements of the source are, and which of them the translator reads"""
+        try:
+            from . import c20_guards
+
+            cov = c20_guards.coverage()
+            out = [f"{r['file']}:{r['where']}({r['exc']})" for r in cov["outside"]]
+            return (
+                self._partial_base
+                + f" Coverage of the source: {cov['total']} raise/assert statements in src/classy_blocks; "
+                f"{len(cov['translated'])} sit in the {len(c20_guards.covered_functions())} functions whose guards are translated, "
+                f"{len(cov['modelled_only'])} are modelled without translation (loop with return, look-up), "
+                f"{len(cov['outside'])} are outside C20's model: " + "; ".join(out)
+            )
+        except Exception as e:  # the source cannot be read: say so, the table generation reports the rest
+            return self._partial_base + f" (coverage of the source not available: {e})"
 
     # ------------------------------------------------------------------ generators
     def gen_cases(self, rng: random.Random, tier: str) -> List[dict]:
         if tier == "quick":
             return (
                 boundary_cases()
+                + guard_cases()
                 + proj_boundary_cases()
                 + random_cases(rng, 500)
                 + grid_boundary_cases()
@@ -1139,6 +1438,7 @@ class C20(core.Check):
         # thorough: wider index ranges (all pairs in -12..19), all frames, much longer random streams
         return (
             boundary_cases(pair_lo=-12, pair_hi=19)
+            + guard_cases()
             + random_cases(rng, 20000)
             + grid_boundary_cases()
             + grid_cases(rng, 3000)
@@ -1148,12 +1448,14 @@ class C20(core.Check):
         )
 
     def search_cases(self, rng: random.Random, tier: str) -> List[dict]:
-        return boundary_cases() + proj_boundary_cases() + random_cases(rng, 400) + grid_boundary_cases() + grid_cases(rng, 100) + mesh_cases(rng, 40) + proj_cases(rng, 300)
+        # first of all: the inputs built from the guards as they are in the source now (a changed guard moves them)
+        return guard_cases() + boundary_cases() + proj_boundary_cases() + random_cases(rng, 400) + grid_boundary_cases() + grid_cases(rng, 100) + mesh_cases(rng, 40) + proj_cases(rng, 300)
 
     # ------------------------------------------------------------------ implementation
     def run_impl(self, case: dict) -> Any:
         if case["kind"] == "call":
-            return {"out": impl_call(case["name"], [Fr(x) for x in case["r"]], case["s"])}
+            rr = [Fr(x) for x in case["r"]]
+            return {"out": impl_call(case["name"], rr, case["s"]), "unchanged": _quiet(impl_state_after_reject)(case["name"], rr, case["s"])}
         if case["kind"] == "grid":
             pts = [[Fr(c) for c in p] for p in case["points"]]
             ops = [[op[0], *[[Fr(c) for c in v] for v in op[1:]]] for op in case["ops"]]
@@ -1166,7 +1468,8 @@ class C20(core.Check):
     def requests(self, case: dict, impl: Any) -> List[str]:
         rat = lambda x: core.rat(Fr(x))
         if case["kind"] == "call":
-            return [f"c20.call {case['name']} {_lean_list([rat(x) for x in case['r']])} {_lean_list(case['s'])}"]
+            args = f"{case['name']} {_lean_list([rat(x) for x in case['r']])} {_lean_list(case['s'])}"
+            return ["c20.call " + args] + (["c20.guards " + args] if case["name"] != "opChop" else [])
         if case["kind"] == "grid":
             v = lambda p: ",".join(rat(c) for c in p)
             pts = ";".join(v(p) for p in case["points"])
@@ -1206,6 +1509,17 @@ class C20(core.Check):
             ok, _ = py_pre(case["name"], [Fr(x) for x in case["r"]], case["s"])
             if ok is not None and ok != (parts[1] == "pre"):
                 return f"{case['name']}{case['r']}{case['s']}: documented precondition: harness {ok}, model {parts[1]}"
+            if len(model) > 1:  # the guards as regenerated from the source, evaluated by the model on the same arguments
+                g = model[1].split(" ")
+                if len(g) != 2 or not (g[0] == "accept" or g[0].startswith("reject:")):
+                    return f"unparsable answer of c20.guards {model[1]!r}"
+                label = f"{case['name']}{case['r']}{case['s']}"
+                if impl["out"] == "accepted" and g[0] != "accept":
+                    return f"{label}: accepted by the implementation, the guards read from the source say {g[0]}"
+                if g[0] != "accept" and parts[0] == "accept":
+                    return f"{label}: the guards read from the source say {g[0]}, the model's run accepts"
+                if g[0] != "accept" and g[1] == "-" and impl.get("unchanged") is False:
+                    return f"{label}: rejected ({impl['out']}) but the entity has changed; the guards read from the source change no state before they fire"
             return None
         if case["kind"] == "proj":
             steps = ans.split(";")
@@ -1245,6 +1559,16 @@ class C20(core.Check):
                         f"precondition but is accepted",
                         "observed": got,
                         "expected": "an exception",
+                    }
+                )
+            if name_atomic(case["name"]) and impl.get("unchanged") is False:
+                out.append(
+                    {
+                        "site": site.split(":")[0] + ":rejected-call-changed-the-entity",
+                        "what": f"{case['name']} {[str(x) for x in case['r']]} {case['s']} raises {got} after having changed "
+                        f"the entity it was called on (the distorted entity exists, the call was not rejected before acting)",
+                        "observed": "entity differs from its state before the call",
+                        "expected": "entity unchanged by a rejected call",
                     }
                 )
             if ok and any(o != "accepted" for o in outs):
